@@ -88,6 +88,12 @@ def decodeDpName : Asn1 → Option (List GName)
   | .cons 2 0 [.cons 2 0 names] => names.mapM decodeGName
   | _ => none
 
+/-- DistributionPoint ::= SEQUENCE { distributionPoint [0] DistributionPointName OPTIONAL, … }
+    (rcgen writes the name only) -/
+def decodeDp : Asn1 → Option (List GName)
+  | .cons 0 16 [n] => decodeDpName n
+  | _ => none
+
 def decodeExtValue (oid : List Nat) (v : Bytes) : Option ExtValue :=
   match decodeAll v with
   | none => if oid.take 3 == [2, 5, 29] ∧ oid.length == 4 ∧
@@ -131,9 +137,7 @@ def decodeExtValue (oid : List Nat) (v : Bytes) : Option ExtValue :=
       match asSeq t with
       | some dps =>
         if dps.isEmpty then none else
-        (dps.mapM (fun (dp : Asn1) => match dp with
-          | .cons 0 16 [n] => decodeDpName n
-          | _ => none)).map ExtValue.crlDps
+        (dps.mapM decodeDp).map ExtValue.crlDps
       | none => none
     else if oid == [2, 5, 29, 20] then (asNat t).map ExtValue.crlNumber
     else if oid == [2, 5, 29, 28] then
